@@ -464,6 +464,8 @@ func driveTiles(t *Tracer, r Rng, n int) {
 					x = ts[r.Intn(len(ts))]
 					if r.Chance(0.5) { // neighbouring key: overlapping index ranges
 						x.Z = maxI(0, x.Z+r.Pick(-1, 1))
+					} else if r.Chance(0.5) { // the same footprint a few keys away: a GAP between the two ranges of one column
+						x.Z = maxI(0, x.Z+r.Pick(2, 3, 5, -2, -3, -4))
 					}
 				} else {
 					x.H = r.In(0, 35)
